@@ -155,15 +155,41 @@ def run(ctx):
              ctx.construct(cw, extra='dispatch or complete'),
              '_continue_workflow has a path that neither dispatches nor '
              'checks completion', ctx.loc(cw))
-    src = ast.unparse(cw.node)
-    r3.check('not isinstance(c, commands.PauseWorkflow)' in
-             ' '.join(src.split()),
-             ctx.construct(cw, extra='drop pause commands'),
-             'pause commands are no longer dropped on resume', ctx.loc(cw))
+    # commands are filtered exactly once, dropping exactly the pause
+    # commands (fail / succeed commands of tasks that completed while the
+    # workflow was paused must survive the resume)
+    flt = [x for x in own_nodes(cw.node)
+           if isinstance(x, (ast.ListComp, ast.GeneratorExp)) and
+           any(g.ifs for g in x.generators)]
+    okf = len(flt) == 1 and len(flt[0].generators) == 1 and \
+        len(flt[0].generators[0].ifs) == 1
+    if okf:
+        g = flt[0].generators[0]
+        v = dotted(g.target)
+        okf = dotted(flt[0].elt) == v and dotted(g.iter) == cw.params[1] \
+            and U.phas(g.ifs[0], 'not isinstance(%s, '
+                       'commands.PauseWorkflow)' % v) and \
+            isinstance(g.ifs[0], ast.UnaryOp)
+    r3.check(okf, ctx.construct(cw, extra='drop pause commands'),
+             'resume does not drop exactly the pause commands from the '
+             'recomputed command list', ctx.loc(cw))
     marks = [st for t, st in U.attr_stores(cw.node) if t.attr == 'processed']
-    r3.check(bool(marks), ctx.construct(cw, extra='mark processed'),
-             'completed unprocessed tasks are not marked processed',
-             ctx.loc(cw))
+    mcfg = ctx.cfg(cw)
+    r3.check(bool(marks) and all(
+        norm(st.value) == 'True' and
+        U.guarded(mcfg, mcfg.stmt_node(st), 'states.is_completed('
+                  '__t.state)', True) and
+        U.guarded(mcfg, mcfg.stmt_node(st), '__t.processed', False)
+        for st in marks), ctx.construct(cw, extra='mark processed'),
+        'exactly the completed, not yet processed tasks are not what is '
+        'marked processed on resume', ctx.loc(cw))
+    for n, c in U.calls_in(cfg, 'check_and_complete'):
+        r3.check(U.guarded(cfg, n, cw.params[1], False) and
+                 U.guarded(cfg, n, 'self._get_backlog()', False),
+                 ctx.construct(cw, extra='complete only when nothing to do'),
+                 'resume goes straight to the completion check although '
+                 'there are new or backlogged commands (they are dropped)',
+                 ctx.loc(cw, c))
     bl = U.calls_in(cfg, '_get_backlog')
     r3.check(bool(bl), ctx.construct(cw, extra='backlog consulted'),
              'the backlog is not consulted when there are no new commands',
